@@ -247,6 +247,39 @@ theorem C08_no_deadlock {v : Variant} (h : Reach v progs s) (t : Tid) (k : AcqK)
     simp [ho] at hc
     exact ⟨u, rfl, hne, by omega, fun k' _ => by simp [canAcquire, ho]⟩
 
+/-- the owner of the lock is never held up: its next step executes its line and moves on.
+Together with `C08_no_deadlock`: whenever some thread waits for the lock, another thread can
+make progress. -/
+theorem C08_owner_progresses (h : Reach .fixed progs s) (u : Tid) (c : Choice)
+    (ho : s.owner = some u) : ((step .fixed s u c).thr u).pc ≠ (s.thr u).pc := by
+  have hl := h.lockInv
+  have hcrit : 0 < (s.thr u).pc.crit := by
+    have := hl.crit u; have hp := hl.pos (by simp [ho]); simp [ho] at this; omega
+  have hne : (act .fixed s u c (s.thr u).pc).eff ≠ .crash := by
+    intro hc
+    have h' := (Reach.step u c h).inv.noErr
+    unfold JC.step at h'
+    generalize act .fixed s u c (s.thr u).pc = x at hc h'
+    obtain ⟨p', e, pop⟩ := x
+    simp at hc; subst hc
+    simp [apply] at h'
+  have hprog := act_progress s u c _ hcrit hne (by simp [canAcquire, ho])
+  rw [step_pc]
+  split
+  · rename_i b hb
+    have : u ≠ .job b := by
+      rintro rfl
+      have := act_mkThread _ _ _ _ _ _ hb
+      rw [this] at hcrit; simp [Pc.crit] at hcrit
+    simp [this]; exact hprog
+  · rename_i b hb
+    have : u ≠ .job b := by
+      rintro rfl
+      have := act_startThread _ _ _ _ _ _ hb
+      rw [this] at hcrit; simp [Pc.crit] at hcrit
+    simp [this]; exact hprog
+  · simp; exact hprog
+
 /-! ## Background jobs -/
 
 /-- a background body runs ⇒ its agent is in the background map, so `is_running(name)` is true -/
